@@ -33,6 +33,10 @@ type crashCase struct {
 	// ["none"] | ["exit", n]: the one text is the call (exit n) | ["chan", capacity, [ops]]: the one text makes a
 	// channel of that capacity, reachable by nobody else, and performs these "send" / "recv" operations on it in order
 	Prog []any `json:"prog"`
+	// the program does not need only a bounded number of evaluation steps (macro expansion and evaluation that
+	// call themselves without end; the step budget ends them, but how soon is not bounded by it): it may fail to
+	// return within the time limit
+	Unb bool `json:"unb"`
 	// one outcome per text: ["val"] ["err"] ["more"] ["budget"] ["eof"] | ["panic",msg] ["nilres"] ["died",msg]
 	// ["exited",status] ["hung"] | ["notrun"]
 	Outs []any `json:"outs,omitempty"`
@@ -62,9 +66,9 @@ func crashEnv(cfg string) *zygo.Zlisp {
 
 // names callable in an interpreter of the given configuration. Nothing is left out: the workers run in a
 // throw-away directory with an empty standard input, so files, the shell and the readers of standard input are
-// harmless (the shell commands of the palette are inert words). The only restriction is on arguments:
+// harmless (the shell commands of the palette are inert words). The only restrictions are on arguments (paletteOK):
 // (sleep n) returns after n milliseconds, which for the huge size is a long time and not a call that does not
-// return, so sleep is not given the huge size.
+// return, so sleep is not given the huge size; dump is given scalars only.
 func crashUniverse(cfg string) []string {
 	env := crashEnv(cfg)
 	var out []string
@@ -79,7 +83,14 @@ func crashUniverse(cfg string) []string {
 	return out
 }
 
-func paletteOK(name, val string) bool { return !(name == "sleep" && val == hugeSize) }
+func paletteOK(name, val string) bool {
+	if name == "dump" {
+		// (dump v) of an array, a hash, a list or a function prints the interpreter they belong to (megabytes of
+		// text, ten seconds and more): it returns, but not within the workers' time limit
+		return !strings.ContainsAny(val, "[(")
+	}
+	return !(name == "sleep" && val == hugeSize)
+}
 
 func outcomeOf(fn func() (zygo.Sexp, error)) (o any) {
 	defer func() {
@@ -110,7 +121,7 @@ func runCrashCase(c *crashCase) {
 	c.Outs = nil
 	if c.Entry == "repl" {
 		for _, t := range c.Texts {
-			c.Outs = append(c.Outs, runReplChild(c.Cfg, expandText(t)))
+			c.Outs = append(c.Outs, runReplChild(c.Cfg, expandText(t), c.Src != "repl" || strings.Contains(t, "(def cy ")))
 		}
 		return
 	}
@@ -119,9 +130,7 @@ func runCrashCase(c *crashCase) {
 	for _, t := range c.Texts {
 		t = expandText(t)
 		var o any
-		if os.Getenv("ZV_NOBUDGET") == "" {
-			zygo.VerifSetBudget(crashBudget)
-		}
+		zygo.VerifSetBudget(crashBudget)
 		switch c.Entry {
 		case "eval", "seq":
 			o = outcomeOf(func() (zygo.Sexp, error) { return env.EvalString(t) })
@@ -157,8 +166,10 @@ func runCrashCase(c *crashCase) {
 // evaluates and echoes them one by one and ends the process with status 0 when the input ends. It runs in a
 // child of the worker; the outcome is how that process ended.
 
-func replChildMain(cfg string) int {
-	debug.SetMaxStack(workerMaxStack)
+func replChildMain(cfg string, lowStack bool) int {
+	if lowStack {
+		debug.SetMaxStack(workerMaxStack)
+	}
 	env := crashEnv(cfg)
 	zc := zygo.NewZlispConfig("zygo")
 	zc.NoLiner = true
@@ -170,9 +181,12 @@ func replChildMain(cfg string) int {
 	return 0
 }
 
-func runReplChild(cfg, text string) any {
+func runReplChild(cfg, text string, lowStack bool) any {
 	self, _ := os.Executable()
 	cmd := exec.Command(self, "crash", "-replchild", "-cfg", cfg)
+	if lowStack {
+		cmd.Args = append(cmd.Args, "-lowstack")
+	}
 	cmd.Stdin = strings.NewReader(text)
 	cmd.Env = append(os.Environ(), "GOMAXPROCS=2")
 	var stderr bytes.Buffer
@@ -223,16 +237,31 @@ func endOfProcess(ps *os.ProcessState, stderr string) any {
 	return []any{"died", fmt.Sprintf("exit=%d %s", ps.ExitCode(), trunc(msg, 300))}
 }
 
-// Go's bound on a goroutine stack is 1 GB; the workers lower it, so that a recursion without end (or as deep as
-// its input is long) is over in a moment and does not touch a gigabyte of memory. The bound is still far above
-// what any evaluation of a generated case needs when the recursion is bounded.
+// Go's bound on a goroutine stack is 1 GB. For the sources that look for a recursion in Go that no evaluation
+// step drives (a printer, a comparison, an encoder on a value that contains itself; the reader on a text as deep
+// as it is long) the worker lowers it, so that such a recursion is over in a second or two and does not touch a
+// gigabyte of memory. Stacks double, so 48 MB means 32 MB: several times what these cases need when every such
+// recursion has a bound of 10000 levels. Everywhere else the step budget is what bounds the depth of evaluation
+// (evaluation nests a Go call per level of the expression), and the stack keeps Go's bound.
+var lowStackSrc = map[string]bool{"cyclic": true, "deep": true}
+
+const defaultMaxStack = 1000000000
+
 var workerMaxStack = func() int {
-	mb := 192
+	mb := 48
 	if v := os.Getenv("ZV_MAXSTACK_MB"); v != "" { // development aid
 		fmt.Sscanf(v, "%d", &mb)
 	}
 	return mb << 20
 }()
+
+func setStackFor(src string) {
+	if lowStackSrc[src] {
+		debug.SetMaxStack(workerMaxStack)
+	} else {
+		debug.SetMaxStack(defaultMaxStack)
+	}
+}
 
 var hungLimit = func() time.Duration {
 	n := 20
@@ -311,7 +340,7 @@ func crashCases(c *common) []crashCase {
 				if c.thorough() || hashSel(c.seed, ui*1000+i*20+j, 1, 3) {
 					addb(fmt.Sprintf("(%s %s %s)\n", name, a, b))
 				}
-				if c.thorough() && hashSel(c.seed, ui*1000+i*20+j, 1, 8) {
+				if c.thorough() && hashSel(c.seed, ui*1000+i*20+j, 1, 8) && paletteOK(name, valuePalette[(i+j)%(len(valuePalette)-1)]) {
 					addb(fmt.Sprintf("(%s %s %s %s)\n", name, a, b, valuePalette[(i+j)%(len(valuePalette)-1)]))
 				}
 			}
@@ -363,10 +392,18 @@ func crashCases(c *common) []crashCase {
 	}
 	// (2d) a name bound to a value of one kind and then bound again to a value of another kind,
 	// in the global scope, in a function, in a let, through def and through set
-	redefs := append(append([]string{}, valuePalette...), "(struct RdS [(field A: int64)])", "(defmap rdm)", "(rdm a: 1)", "(package \"rdp\" { A := 1 })", "(raw \"x\")", "12345678901234567890ULL", "'c'", "(now)", "(* 1 1.5)")
+	redefs := append(append([]string{}, valuePalette...), "(struct RdS [(field A: int64)])", "(defmap rdm)", "(rdm a: 1)", "(package \"rdp\" { A := 1 })", "(raw \"x\")", "12345678901234567890ULL", "'c'", "(now)", "(* 1 1.5)", "(field a.b: int64)", "(makeChan 1)", "int64", "(regexpCompile \"a\")")
+	nplain := len(redefs)
+	for _, v := range redefs[:nplain] {
+		// a container that holds a value of each kind (an array takes its type from its first element)
+		redefs = append(redefs, "["+v+"]", "[1 "+v+"]", "(list "+v+")", "(hash k: "+v+")")
+	}
 	for i, a := range redefs {
 		for j, b := range redefs {
-			if i == j || !(c.thorough() || hashSel(c.seed, i*100+j, 1, 2)) {
+			if i == j || !(c.thorough() || hashSel(c.seed, i*1000+j, 1, 2)) {
+				continue
+			}
+			if (i >= nplain || j >= nplain) && !(c.thorough() || hashSel(c.seed, i*1000+j, 1, 5) || j < 2) {
 				continue
 			}
 			add("redef", "seq", fmt.Sprintf("(def y %s)\n", a), fmt.Sprintf("(def y %s)\n", b), "(str y)\n")
@@ -530,12 +567,12 @@ func crashCases(c *common) []crashCase {
 		add("deep", "eval", fmt.Sprintf("(def s %q)\n(for [(def i 0) (< i 19) (set i (+ i 1))] (set s (concat s s)))\n(len s)\n", o), "(read s)\n", "(+ 1 2)\n")
 	}
 	wide := []string{
-		"(list " + rep("1 ", deepN) + ")\n", "[" + rep("1 ", deepN) + "]\n", "{" + rep("1 + ", deepN) + "1}\n",
+		"(list " + rep("1 ", deepN) + ")\n", "[" + rep("1 ", deepN) + "]\n", "{" + rep("1 + ", deepN/20) + "1}\n",
 		"(quote (" + rep("a ", deepN) + "))\n", "(+ " + rep("1 ", deepN) + ")\n", rep("1 ", deepN) + "\n",
 		"\"" + rep("s", 2*deepN) + "\"\n", rep("s", 2*deepN) + "\n", rep("(a)\n", deepN/4), "(hash " + rep("a: 1 ", deepN/4) + ")\n",
 		"(a" + rep(".b", deepN/2) + ")\n", rep("9", deepN) + "\n", "{" + rep("a;", deepN) + "}\n", "(cond " + rep("false 1 ", deepN/4) + "2)\n",
 		"(and " + rep("true ", deepN/4) + ")\n", "(begin " + rep("1 ", deepN/4) + ")\n", "(defn w [] " + rep("1 ", deepN/4) + ")\n(w)\n", "// " + rep("c", 2*deepN) + "\n1\n",
-		"/*" + rep("c\n", deepN) + "*/ 1\n", "(let [" + rep("a 1 ", deepN/8) + "] a)\n",
+		"/*" + rep("c\n", deepN/20) + "*/ 1\n", "(let [" + rep("a 1 ", deepN/8) + "] a)\n",
 	}
 	for wi, t := range wide {
 		addx("wide", entries[wi%3], "sandbox", none, t, "(+ 1 2)\n")
@@ -549,6 +586,7 @@ func crashCases(c *common) []crashCase {
 	}
 	for mi, t := range macs {
 		addx("macrec", entries[mi%2], "sandbox", none, t, "(+ 1 2)\n")
+		cases[len(cases)-1].Unb = true
 	}
 	// (9) channels: a program with one thread of control that makes a channel nobody else can reach and sends
 	// and receives on it; the generator states the capacity and the operations
@@ -587,7 +625,7 @@ func crashCases(c *common) []crashCase {
 		a, b := valuePalette[ui%len(valuePalette)], valuePalette[(ui*7+3)%len(valuePalette)]
 		lines = append(lines, "("+name+")", fmt.Sprintf("(%s %s)", name, a), fmt.Sprintf("(%s %s %s)", name, a, b), name)
 	}
-	for _, v := range redefs {
+	for _, v := range redefs[:nplain] {
 		lines = append(lines, v, "(def rv "+v+")", "rv", "[rv rv]", "(fn [] rv)", "(field a.b: int64)", "(field rv: int64)")
 	}
 	for _, pre := range cyc {
@@ -627,7 +665,7 @@ func crashCases(c *common) []crashCase {
 		addx("repl", "repl", cfg, none, strings.Join(body, "\n")+"\n"+enders[(si*37+int(c.seed))%len(enders)])
 	}
 	for ei, e := range enders {
-		if c.thorough() || hashSel(c.seed, ei, 1, 12) {
+		if c.thorough() || hashSel(c.seed, ei, 1, 40) {
 			addx("repl", "repl", "sandbox", none, "(+ 1 2)\n"+e)
 		}
 	}
@@ -728,12 +766,15 @@ func mutate(s string, r *rng) string {
 // sources whose cases end the worker process one by one as long as the defect they look for is there: a worker
 // that has died costs a new process, so after deathCap deaths in a shard the remaining cases of these sources are
 // recorded as not run (and not judged); the other sources are always run
-var deadlySrc = map[string]bool{"cyclic": true, "deep": true, "wide": true, "macrec": true}
+var deadlySrc = map[string]bool{"cyclic": true, "deep": true}
 
 const deathCap = 12
 const hungCap = 6
 
 func hungLimitOf(c *crashCase) time.Duration {
+	if c.Unb {
+		return hungLimit / 2 // long enough for the recursion to reach its bound, or the end of the stack
+	}
 	if c.Src == "chan" {
 		return 8 * time.Second // a handful of evaluation steps
 	}
@@ -741,7 +782,6 @@ func hungLimitOf(c *crashCase) time.Duration {
 }
 
 func crashWorker(in string, from int, out string, skipDeadly bool) int {
-	debug.SetMaxStack(workerMaxStack)
 	var cases []crashCase
 	readLines(in, func(line []byte) {
 		var c crashCase
@@ -766,6 +806,7 @@ func crashWorker(in string, from int, out string, skipDeadly bool) int {
 			f.Write(append(b, '\n'))
 			continue
 		}
+		setStackFor(c.Src)
 		done := make(chan struct{})
 		go func() {
 			runCrashCase(&c)
@@ -778,6 +819,9 @@ func crashWorker(in string, from int, out string, skipDeadly bool) int {
 			h.Outs = append(append([]any{}, c.Outs...), []any{"hung"})
 			b, _ := json.Marshal(h)
 			f.Write(append(b, '\n'))
+			if c.Unb {
+				return 98 // as 97, but nothing went wrong
+			}
 			return 97 // the goroutine cannot be stopped: restart the worker after this case
 		}
 		b, _ := json.Marshal(c)
@@ -803,19 +847,20 @@ func countLines(path string) int {
 
 func init() {
 	register("crash", "C01: no input can crash the host (entry points x malformed inputs)", func(args []string) int {
-		var worker, replchild, skipDeadly, list bool
+		var worker, replchild, skipDeadly, list, lowStack bool
 		var from int
 		var cfg string
 		c := commonFlags("crash", args, func(fs *flag.FlagSet) {
 			fs.BoolVar(&worker, "worker", false, "internal: run cases of -in from index -from, append results to -out")
 			fs.BoolVar(&replchild, "replchild", false, "internal: run zygo.Repl on the standard input")
 			fs.BoolVar(&skipDeadly, "skipdeadly", false, "internal: record the cases of the sources that end the worker as not run")
+			fs.BoolVar(&lowStack, "lowstack", false, "internal: -replchild with the lowered stack bound")
 			fs.BoolVar(&list, "list", false, "debug aid: print the generated cases instead of running them")
 			fs.StringVar(&cfg, "cfg", "sandbox", "internal: interpreter configuration of -replchild")
 			fs.IntVar(&from, "from", 0, "internal")
 		})
 		if replchild {
-			return replChildMain(cfg)
+			return replChildMain(cfg, lowStack)
 		}
 		if worker {
 			return crashWorker(c.in, from, c.out, skipDeadly)
@@ -893,7 +938,7 @@ func init() {
 			if err == nil && done >= len(mine) {
 				break
 			}
-			if done < len(mine) && (err == nil || cmd.ProcessState == nil || cmd.ProcessState.ExitCode() != 97 || strings.Contains(stderr.String(), "goroutine ")) {
+			if done < len(mine) && (err == nil || cmd.ProcessState == nil || (cmd.ProcessState.ExitCode() != 97 && cmd.ProcessState.ExitCode() != 98) || strings.Contains(stderr.String(), "goroutine ")) {
 				// the worker ended while running case `done`: that is the observation
 				cc := mine[done]
 				cc.Outs = append(cc.Outs, endOfProcess(cmd.ProcessState, stderr.String()))
